@@ -796,6 +796,23 @@ def _const_beside_others(hint, depth=0) -> bool:
     return any(_const_beside_others(a, depth + 1) for a in args if not isinstance(a, (str, int, float, bool, typing.ForwardRef)))
 
 
+def _schema_has_const_union(s, comps, depth=0, seen=None) -> bool:
+    """Does the schema (followed through references) hold a union in which a const stands beside other members?"""
+    seen = set() if seen is None else seen
+    if not isinstance(s, dict) or depth > 40:
+        return False
+    k = s.get("k")
+    if k == "ref":
+        if s["name"] in seen or s["name"] not in comps:
+            return False
+        seen.add(s["name"])
+        return _schema_has_const_union(comps[s["name"]], comps, depth + 1, seen)
+    if k == "union" and len(s.get("members", [])) >= 2 and any(m.get("k") == "const" for m in s["members"]):
+        return True
+    return any(_schema_has_const_union(x, comps, depth + 1, seen)
+               for x in [p_[1] for p_ in s.get("props", [])] + s.get("members", []) + s.get("allOf", []) + [s.get("items"), s.get("addl")])
+
+
 def _check_obj(ctx, obj, ns, comps, s, lit, depth=0, via_union=False):
     if depth > 4:
         return
@@ -814,7 +831,7 @@ def _check_obj(ctx, obj, ns, comps, s, lit, depth=0, via_union=False):
         if not conforms(v, hint, ns):
             ctx.violation("truthful.attribute", {"where": "attribute", "shared_list": attr == "shared_list",
                                                  **({"object_chosen_among_union_members": True} if via_union else {}),
-                                                 **({"const_member_beside_others": True} if _const_beside_others(hint) else {})},
+                                                 **({"const_member_beside_others": True} if _const_beside_others(hint) or _schema_has_const_union(s, comps) else {})},
                           f"{type(obj).__name__}.{attr} = {v!r} vs {hint!r}"[:300])
         elif hasattr(v, "to_dict") and hasattr(type(v), "from_dict"):
             _check_obj(ctx, v, ns, comps, s, lit, depth + 1, via_union or _n_model_members(hint, ns) >= 2)
